@@ -444,8 +444,12 @@ def notifier_snapshot(ctx, res):
         # the callable is read from the private list, not from the live ones
         live = any(f"{params[0]}->ob_item" in tgt or f"{params[1]}->ob_item"
                    in tgt for _ in (0,))
-        if ("snapshot" not in seen) and (not ok or live or
-                                         "PyList_New(" not in tgt):
+        from .cstore import fresh_oracle
+        is_fresh = fresh_oracle(ctx, facts)
+        base_list = tgt.split("->ob_item")[0] if "->ob_item" in tgt else tgt
+        private = "PyList_New(" in tgt or is_fresh(base_list)
+        ok = ok or is_fresh(base_list)
+        if ("snapshot" not in seen) and (not ok or live or not private):
             seen.add("snapshot")
             res.violation("call_notifiers:snapshot",
                           f"{CREL}:{calls[0][3]}",
